@@ -133,6 +133,13 @@ pub fn widen(pid: &str, op: &str, out: &mut Vec<String>) {
     hist.push(wrap_all(&first, &|d| J::Obj(vec![("k".into(), d.clone())])));
     hist.push(wrap_all(&first, &|d| J::Arr(vec![d.clone()])));
     hist.push(wrap_all(&first, &|d| J::Arr(vec![J::Num("1".into()), d.clone(), J::Str("s".into())])));
+    // the second operand below an object member that a later element of the same array lacks: the
+    // only way for the incoming operand of a nested merge to carry the optional flag
+    let mut h4: Vec<J> = ha.iter().map(|d| J::Arr(vec![J::Obj(vec![("k".into(), d.clone())])])).collect();
+    h4.push(J::Arr(vec![J::Obj(vec![("k".into(), hb[0].clone())]), J::Obj(vec![])]));
+    hist.push(h4.clone());
+    hist.push(vec![h4[0].clone(), h4[h4.len() - 1].clone()]);
+    hist.push(vec![h4[h4.len() - 1].clone(), h4[0].clone()]);
     for h in hist {
         let hx = hexes(&h);
         match pid {
